@@ -1217,6 +1217,8 @@ def surjectionproof_initialize(
 def surjectionproof_generate(
     proof, in_idx, in_tags, out_tag, in_abf, out_abf, context=_secp.ctx
 ):
+    # the library completes the proof in place: work on a copy and return it
+    proof = _copy(proof)
     res = _secp.secp256k1_surjectionproof_generate(
         context,
         proof,
